@@ -48,3 +48,57 @@ Theorem C11_stats_double_count_refuted :
     stage (rds y 0) = RDone /\ count_pair (0, 0) (result (rds y 0)) = 2.
 Proof. exact stats_double_count_refuted. Qed.
 Print Assumptions C11_stats_double_count_refuted.
+
+(* ---- "no deadlocks": the lock discipline of the hand-over lists ----
+   Every step of the model above is one critical section of a reader/writer lock in the code
+   (globalMetadata.updateLock, UnrotatedInfoLock, ...).  Go's sync.RWMutex prefers writers: once a
+   writer has called Lock(), every new RLock() waits.  The lock programs of the real functions
+   (acquisitions and releases in call order, callees expanded) are read from the Go source on every
+   run and [nonreentrant] is evaluated on them inside Coq (cases_locks.v).
+
+   Goroutines (any number) that each run ANY sequence of calls whose lock programs are
+   non-reentrant never reach a state in which somebody still has work and nobody can move,
+   whatever the scheduler does ... *)
+Theorem C11_lock_progress :
+  forall (threads : list (list (list lact))) (sched : list nat),
+  (forall calls c, In calls threads -> In c calls -> nonreentrant c = true) ->
+  stuck (lrun (linit threads) sched) = false.
+Proof. exact lock_progress. Qed.
+Print Assumptions C11_lock_progress.
+
+(* ... and from every state they can reach, all of them can be run to completion. *)
+Theorem C11_lock_completion :
+  forall (threads : list (list (list lact))) (sched : list nat),
+  (forall calls c, In calls threads -> In c calls -> nonreentrant c = true) ->
+  exists rest, all_finished (lrun (linit threads) (sched ++ rest)) = true.
+Proof. exact lock_completion. Qed.
+Print Assumptions C11_lock_completion.
+
+(* Without the premise the statement is false: ONE call that takes the read lock while it holds it
+   and ONE writer.  After the outer RLock and the writer's Lock() announcement the state is stuck
+   and stays so under every continuation (a deadlock, not a delay), although the same call run by
+   readers only always finishes (so sequential tests and reader-only stress cannot see it). *)
+Theorem C11_recursive_read_lock_refuted :
+  exists (reader writer : list lact) (sched : list nat),
+    nonreentrant reader = false /\ nonreentrant writer = true /\
+    let ts := lrun (linit [[reader]; [writer]]) sched in
+    stuck ts = true /\ (forall more, lrun ts more = ts) /\
+    (exists s1, all_finished (lrun (linit [[reader]; [reader]]) s1) = true).
+Proof. exact recursive_read_lock_refuted. Qed.
+Print Assumptions C11_recursive_read_lock_refuted.
+
+(* the premise is satisfiable by programs that do take the lock in both modes (non-vacuity) *)
+Example C11_lock_discipline_nonvacuous :
+  nonreentrant [RAcq; RRel; WAcq; WRel; RAcq; RRel] = true /\
+  stuck (lrun (linit [[[RAcq; RRel]; [RAcq; RRel]]; [[WAcq; WRel]]]) [0; 1; 0; 1; 1; 0; 0]) = false.
+Proof. split; vm_compute; reflexivity. Qed.
+
+(* The lock model is a lock: whatever the programs do, in every reachable state at most one goroutine
+   is inside a write section and then nobody is inside a read section (so the steps of the hand-over
+   model, each one critical section, are atomic with respect to each other). *)
+Theorem C11_lock_exclusion :
+  forall (threads : list (list (list lact))) (sched : list nat),
+  let ts := lrun (linit threads) sched in
+  writers_inside ts <= 1 /\ (writers_inside ts = 1 -> readers ts = 0).
+Proof. exact lock_exclusion. Qed.
+Print Assumptions C11_lock_exclusion.
